@@ -445,6 +445,8 @@ type ProxyOpts struct {
 	// MITM enables interception of CONNECT tunnels with a self-signed CA (as --mitm does); the
 	// transport then accepts any origin certificate (the scripted TLS origin is self-signed).
 	MITM bool
+	// Credentials are the site credentials (--credentials) handed to forwarder.NewHTTPProxy.
+	Credentials *forwarder.CredentialsMatcher
 }
 
 func StartProxyOpts(name string, opts ProxyOpts) (*Proxy, error) {
@@ -491,7 +493,7 @@ func StartProxyOpts(name string, opts ProxyOpts) (*Proxy, error) {
 			return make(http.Header), nil
 		}
 	}
-	hp, err := forwarder.NewHTTPProxy(cfg, nil, nil, rt, log.NopLogger, nil)
+	hp, err := forwarder.NewHTTPProxy(cfg, nil, opts.Credentials, rt, log.NopLogger, nil)
 	if err != nil {
 		return nil, err
 	}
